@@ -41,6 +41,8 @@ import (
 	"golang.org/x/telemetry/internal/verifsim/mgen"
 	"golang.org/x/telemetry/internal/verifsim/ref/refcal"
 	"golang.org/x/telemetry/internal/verifsim/ref/refcfg"
+	"golang.org/x/telemetry/internal/verifsim/ref/refformat"
+	"golang.org/x/telemetry/internal/verifsim/ref/refreport"
 	"golang.org/x/telemetry/internal/verifsim/simrt"
 )
 
@@ -743,6 +745,18 @@ func scenarioC12(c *hlib.RunCtx) *hlib.Violation {
 	return viol
 }
 
+func sameCounts(a, b map[string]int64) bool {
+	if len(a) != len(b) {
+		return false
+	}
+	for k, v := range a {
+		if w, ok := b[k]; !ok || w != v {
+			return false
+		}
+	}
+	return true
+}
+
 func fmtG(x float64) string { return fmt.Sprintf("%g", x) }
 
 func sameReport(a, b *report) bool {
@@ -820,6 +834,19 @@ func scenarioC11(c *hlib.RunCtx) *hlib.Violation {
 		lastEndAgo = ago - days
 		mgen.WriteCounterFile(t, s, loc, start.Add(-time.Duration(ago)*24*time.Hour), days, t.Biased(2, 5, 6))
 	}
+	// what the directory holds before the uploader runs, week by week
+	byWeek := map[string][]*refreport.CountFile{}
+	if ents, err := os.ReadDir(loc); err == nil {
+		for _, e := range ents {
+			data, _ := os.ReadFile(filepath.Join(loc, e.Name()))
+			d, derr := refformat.Decode(data)
+			if derr != nil || len(d.Meta["TimeEnd"]) < 10 {
+				continue
+			}
+			w := d.Meta["TimeEnd"][:10]
+			byWeek[w] = append(byWeek[w], &refreport.CountFile{Path: e.Name(), Meta: d.Meta, Counts: d.Counts})
+		}
+	}
 	saveReader := rand.Reader
 	rand.Reader = xr{t, []float64{0.25, 0.5, mgen.Dyadic(1<<19 + 1), 0.75, 0}} // (0: the entropy source returns a power of two)
 	defer func() { rand.Reader = saveReader }()
@@ -856,6 +883,49 @@ func scenarioC11(c *hlib.RunCtx) *hlib.Violation {
 	if len(bodies) > 0 {
 		c.Note("nontrivial")
 		s.Probe("uploader-bodies")
+	}
+	// The uploader's own answer: what it put into a request is what the
+	// configuration's documented semantics select from that week's files, build by
+	// build (a build whose counters all fall out may or may not be listed).
+	for _, b := range bodies {
+		var r report
+		if json.Unmarshal(b, &r) != nil {
+			continue
+		}
+		want := refreport.Filter(refreport.Aggregate(byWeek[r.Week]), cfg.Ref, r.X)
+		got := map[refreport.Build]*progRep{}
+		for _, p := range r.Programs {
+			k := refreport.Build{Program: p.Program, Version: p.Version, GoVersion: p.GoVersion, GOOS: p.GOOS, GOARCH: p.GOARCH}
+			if got[k] != nil {
+				fail("uploader-approval-differs", "the request for week %s lists the build %v twice", r.Week, k)
+			}
+			got[k] = p
+		}
+		seen := map[refreport.Build]bool{}
+		for _, wp := range want.Programs {
+			if !wp.PlatformOK {
+				continue
+			}
+			seen[wp.Build] = true
+			g := got[wp.Build]
+			if g == nil {
+				if len(wp.Counters)+len(wp.Stacks) > 0 {
+					fail("uploader-approval-differs", "week %s: the build %v has approved data (%v %v) but the request does not list it", r.Week, wp.Build, wp.Counters, wp.Stacks)
+				}
+				continue
+			}
+			if !sameCounts(g.Counters, wp.Counters) || !sameCounts(g.Stacks, wp.Stacks) {
+				fail("uploader-approval-differs", "week %s, build %v: the request carries counters %v stacks %v; the configuration selects counters %v stacks %v from that build's files", r.Week, wp.Build, g.Counters, g.Stacks, wp.Counters, wp.Stacks)
+			}
+		}
+		for k, g := range got {
+			if !seen[k] && len(g.Counters)+len(g.Stacks) > 0 {
+				fail("uploader-approval-differs", "week %s: the request lists the build %v with data, which the configuration does not select (or no file of that week has that build)", r.Week, k)
+			}
+		}
+		if viol != nil {
+			return viol
+		}
 	}
 	// the corrupting transport: one field changed to a near-miss
 	muts := 0
